@@ -30,7 +30,7 @@ IU = 'malt/pyct/inspect_utils.py'
 
 SOURCES = {'inspect_utils.getimmediatesource', 'linecache.getlines',
            'inspect.getsource', 'inspect.getsourcelines', 'inspect.findsource'}
-BAD_METHODS = {'replace', 'strip', 'lstrip', 'rstrip', 'expandtabs', 'translate',
+BAD_METHODS = {'splitlines', 'replace', 'strip', 'lstrip', 'rstrip', 'expandtabs', 'translate',
                'removeprefix', 'removesuffix', 'lower', 'upper', 'format'}
 BAD_FUNCS = {'re.sub', 're.subn', 'textwrap.dedent', 'textwrap.indent',
              'inspect.cleandoc'}
@@ -407,6 +407,29 @@ def check(model, rep, tier):
   rep.check(ok, 'SRC-GETTER', '%s:preamble' % pe.site,
             'the future-import preamble must be skipped by exactly its length',
             line=pe.node.lineno)
+
+  # the span of a candidate lambda is [smallest start line, largest end line]
+  mins = [(a, b) for a, b in pat.find(pl.node, '_M_ = min(_M_, _X_)')]
+  ok = len(mins) == 1
+  facts = {}
+  if ok:
+    a, b = mins[0]
+    x = a.value.args[1]
+    srcs = []
+    for nm in [n for n in ast.walk(x) if isinstance(n, ast.Name)]:
+      ds = tpl.rdefs(pl.node).reaching(a, nm.id) or []
+      for d in ds:
+        if isinstance(d, ast.AST):
+          srcs.append(core.norm(d))
+    srcs.append(core.norm(x))
+    facts['start_line_sources'] = sorted(set(srcs))
+    ok = any("'lineno'" in t for t in srcs) and not any('end_lineno' in t for t in srcs)
+  rep.check(ok, 'SRC-LAMBDA', '%s:span-starts-at-smallest-start-line' % pl.site,
+            'the first line of a candidate lambda is the smallest *start* line of '
+            'its nodes; taking end lines makes a lambda whose body starts on a '
+            'later line drop out, and a sibling is returned through the '
+            'single-candidate path', facts, line=pl.node.lineno,
+            witness='f = lambda: (\n  compute(1))  next to another lambda')
 
   # ---------------------------------------------------------------- SRC-NOSTATE
   # recovery is a function of the function object: nothing on the path may keep
